@@ -483,6 +483,15 @@ class SiteWalker(exc.GuardWalker):
                 return True
         return False
 
+    cur_sub = None
+
+    def bounded(self, base_key, sub):
+        self.cur_sub = sub
+        try:
+            return self.bounded_index(base_key, sub.slice)
+        finally:
+            self.cur_sub = None
+
     def bounded_index(self, base_key, idx):
         """idx is a loop variable over range(.. len(base) ..)"""
         names = {n.id for n in ast.walk(idx) if isinstance(n, ast.Name)}
@@ -495,6 +504,54 @@ class SiteWalker(exc.GuardWalker):
                        exc.key_of(n) == base_key
                        for a in lp.iter.args for n in ast.walk(a)):
                     return True
+        # a counter that starts at len(base) - c (c >= 1), is only ever
+        # decreased, and is tested `> 0` / `>= 0` in the condition that
+        # guards the subscript (while i > 0 and ... base[i] ...)
+        if isinstance(idx, ast.Name):
+            starts, other = 0, 0
+            for n in walk_no_nested(self.func.node):
+                tgts = []
+                if isinstance(n, ast.Assign):
+                    tgts = [t for t in n.targets if isinstance(t, ast.Name)
+                            and t.id == idx.id]
+                    if tgts:
+                        v = n.value
+                        if isinstance(v, ast.BinOp) and \
+                                isinstance(v.op, ast.Sub) and \
+                                exc.is_len_call(v.left) == base_key and \
+                                isinstance(v.right, ast.Constant) and \
+                                isinstance(v.right.value, int) and \
+                                v.right.value >= 1:
+                            starts += 1
+                        else:
+                            other += 1
+                elif isinstance(n, ast.AugAssign) and \
+                        isinstance(n.target, ast.Name) and \
+                        n.target.id == idx.id:
+                    if not (isinstance(n.op, ast.Sub) and
+                            isinstance(n.value, ast.Constant) and
+                            isinstance(n.value.value, int) and
+                            n.value.value >= 0):
+                        other += 1
+                elif isinstance(n, (ast.For, ast.comprehension)) and any(
+                        isinstance(x, ast.Name) and x.id == idx.id
+                        for x in ast.walk(n.target)):
+                    other += 1
+            if starts >= 1 and other == 0:
+                lower = ("%s > 0" % idx.id, "%s >= 0" % idx.id,
+                         "0 < %s" % idx.id, "0 <= %s" % idx.id)
+                for n in walk_no_nested(self.func.node):
+                    test = getattr(n, "test", None)
+                    if isinstance(n, (ast.While, ast.If, ast.IfExp)) and \
+                            isinstance(test, ast.BoolOp) and \
+                            isinstance(test.op, ast.And):
+                        seen_guard = False
+                        for c in test.values:
+                            if unparse(c) in lower:
+                                seen_guard = True
+                            elif seen_guard and any(
+                                    x is self.cur_sub for x in ast.walk(c)):
+                                return True
         return False
 
     def visit(self, node, facts, store=False):
@@ -526,7 +583,7 @@ class SiteWalker(exc.GuardWalker):
                         node.value.func.attr in ("split", "rsplit"):
                     ok = "split() yields at least one element"
                 elif base_key and ci is None and \
-                        self.bounded_index(base_key, node.slice):
+                        self.bounded(base_key, node):
                     ok = "index bounded by range(len(%s))" % base_key
                 self.sites.append(dict(
                     kind="index", node=node, ok=ok, base=base_key,
